@@ -880,7 +880,7 @@ pub fn run(opts: &Opts, out: &mut dyn Write) {
         let mut strays = vec![];
         let fin = |c: Condition, d: DeliveryCode| PDUPayload::Directive(Operations::Finished(Finished { condition: c, delivery_code: d, file_status: FileStatusCode::Retained, filestore_response: vec![], fault_location: None }));
         for _ in 0..(2 + rng.below(5)) {
-            let kind = rng.below(16);
+            let kind = rng.below(18);
             let at = if kind >= 15 { rng.below(3000) } else if kind >= 12 { rng.below(700) } else if kind >= 9 { rng.below(3000) } else if kind >= 4 { rng.below(700) } else { rng.below(3000) };
             let job = rng.below(njobs as u64) as usize;
             // colliding strays go where the transaction they collide with lives
@@ -915,11 +915,28 @@ pub fn run(opts: &Opts, out: &mut dyn Write) {
                 12 => (mk_pdu(Direction::ToSender, jobs[job].mode, 3 - to, 0, to, fin(Condition::NoError, DeliveryCode::Complete)), Some(job)),
                 13 => (mk_pdu(Direction::ToSender, jobs[job].mode, 3 - to, 0, to, PDUPayload::Directive(Operations::Ack(PositiveAcknowledgePDU { directive: PDUDirective::EoF, directive_subtype_code: ACKSubDirective::Other, condition: Condition::NoError, transaction_status: TransactionStatus::Active }))), Some(job)),
                 14 => (mk_pdu(Direction::ToSender, jobs[job].mode, 3 - to, 0, to, PDUPayload::Directive(Operations::KeepAlive(KeepAlivePDU { progress: 3 }))), Some(job)),
+                // a PDU of a foreign entity's transaction towards the peer, misdelivered here: its source has no transport at this
+                // daemon (the PDU must be dropped), its addressee - the peer - has one
+                16 => (mk_pdu(Direction::ToReceiver, TransmissionMode::Acknowledged, 77, 40 + rng.below(20) as u16, 3 - to, PDUPayload::Directive(Operations::EoF(EndOfFile { condition: Condition::NoError, checksum: 0, file_size: 0, fault_location: None }))), None),
+                17 => (mk_pdu(Direction::ToReceiver, TransmissionMode::Unacknowledged, 77, 40 + rng.below(20) as u16, 3 - to, PDUPayload::FileData(FileDataPDU::Unsegmented(UnsegmentedFileData { offset: 0, file_data: vec![7; 3] }))), None),
                 // a response of a foreign entity's transaction addressed to the peer, misdelivered here: no such transaction, a
                 // transport for the addressee exists
                 _ => (mk_pdu(Direction::ToSender, TransmissionMode::Acknowledged, foreign, 600 + rng.below(50) as u16, 3 - to, fin(Condition::NoError, DeliveryCode::Complete)), None),
             };
             strays.push((at, to, p, seq_of));
+        }
+        // every scenario has PDUs of the daemons' own send transactions reflected back to their originators, spread over the
+        // time in which those transactions end and their entries are cleaned up (at most 1 s later)
+        for _ in 0..3 {
+            let job = rng.below(njobs as u64) as usize;
+            let to = jobs[job].from;
+            let at = rng.below(1800);
+            let p = if rng.chance(1, 2) {
+                mk_pdu(Direction::ToReceiver, jobs[job].mode, to, 0, 3 - to, PDUPayload::FileData(FileDataPDU::Unsegmented(UnsegmentedFileData { offset: 0, file_data: vec![0xAB; 5] })))
+            } else {
+                mk_pdu(Direction::ToReceiver, jobs[job].mode, to, 0, 3 - to, PDUPayload::Directive(Operations::EoF(EndOfFile { condition: Condition::NoError, checksum: 0, file_size: 0, fault_location: None })))
+            };
+            strays.push((at, to, p, Some(job)));
         }
         // keep the transactions alive for a while (nothing is lost): the EOF, Finished and ACK PDUs are late
         let mut kplan = BTreeMap::new();
